@@ -191,6 +191,10 @@ func (c *ChordStorage) List(ctx context.Context, prefix string, recursive bool) 
 			if key.GetType() != protocol.KeyComposite_SIMPLE {
 				continue
 			}
+			if !strings.HasPrefix(string(key.GetKey()), prefix) {
+				// a sibling whose name merely starts with the listed name (e.g. "d2/..." when listing "d")
+				continue
+			}
 			sub := strings.TrimPrefix(string(key.GetKey()), prefix)
 			before, _, ok := strings.Cut(sub, "/")
 
